@@ -191,7 +191,7 @@ w("readfrom-zero-buffer", ["C05"], "C05.header/sentinel/(*commit.Commit).ReadFro
 w("record-merge-shared-scratch", ["C09"], "C09.reentrant/column.ForRecord$3", "merge closure decodes into scratch records shared by all blocks",
   ("column_record.go", "\tmergeRecord := func(v, d string) string {\n\t\tvalue := pool.Get().(T)\n\t\tdelta := pool.Get().(T)\n\t\tdefer pool.Put(value)\n\t\tdefer pool.Put(delta)\n", "\tvalue, delta := new(), new()\n\tmergeRecord := func(v, d string) string {\n"), suite="survives")
 w("chunks-from-count", ["C07"], "C07.count/(*column.Collection).chunks/extent", "block count derived from the row count",
-  ("snapshot.go", "\tmax, _ := c.fill.Max()\n\treturn int(commit.ChunkAt(max) + 1)", "\tmax := uint32(c.Count() - 1)\n\treturn int(commit.ChunkAt(max) + 1)"), suite="survives")
+  ("snapshot.go", "\tmax, _ := c.fill.Max()\n\tchunks := int(commit.ChunkAt(max) + 1)", "\tmax := uint32(c.Count() - 1)\n\tchunks := int(commit.ChunkAt(max) + 1)"), suite="survives")
 w("rangeread-skips-last-block", ["C04", "C10"], "C04.blocks/(*column.Txn).rangeRead", "last (partial) block not visited",
   ("txn_lock.go", "\tfor chunk := commit.Chunk(0); chunk <= limit; chunk++ {\n\t\tlock.RLock(uint(chunk))\n\t\tf(chunk, chunk.OfBitmap(txn.index))", "\tfor chunk := commit.Chunk(0); chunk < limit; chunk++ {\n\t\tlock.RLock(uint(chunk))\n\t\tf(chunk, chunk.OfBitmap(txn.index))"))
 w("acquire-keeps-setup", ["C02", "C04"], "C02.pool/(*column.txnPool).acquire", "pooled transaction keeps the previous user's selection",
